@@ -21,6 +21,9 @@ M6 = (142.5e9, 8.7e9, 0.28, 5.1e9, 4.6e9, 3.3e9)
 M6B = (38.0e9, 9.2e9, 0.26, 3.5e9, 3.2e9, 2.7e9)
 M3 = (71.0e9, 71.0e9, 0.33)
 M9 = (130.0e9, 9.0e9, 0.31, 4.8e9, 4.1e9, 3.0e9, 11.0e9, 0.02, 0.4)
+# balanced woven fabric: E1 == E2 exactly but orthotropic (independent shear moduli); 6- and 9-entry forms
+MW6 = (70.0e9, 70.0e9, 0.05, 5.0e9, 4.0e9, 3.0e9)
+MW9 = (70.0e9, 70.0e9, 0.05, 5.0e9, 4.0e9, 3.0e9, 9.0e9, 0.3, 0.3)
 T0 = 0.125e-3
 RTOL = 1e-12
 
@@ -46,7 +49,9 @@ def thickness(pat, n):
 def materials(pat, n):
     if pat == 'mix':
         return [(M6, M6B, M3)[k % 3] for k in range(n)]
-    return [dict(m6=M6, m3=M3, m9=M9)[pat]] * n
+    if pat == 'mixw':
+        return [(MW6, M6, MW9)[k % 3] for k in range(n)]
+    return [dict(m6=M6, m3=M3, m9=M9, mw6=MW6, mw9=MW9)[pat]] * n
 
 
 def offsets(seed):
@@ -82,8 +87,8 @@ def check_case(case):
     states = trans = nontriv = 0
     lams = {}
     for tpat in ('uni', 'var'):
-        for mpat in ('m6', 'm3', 'm9', 'mix'):
-            forms = ['perply'] + (['uniform'] if (tpat == 'uni' and mpat != 'mix') else [])
+        for mpat in ('m6', 'm3', 'm9', 'mix', 'mw6', 'mw9', 'mixw'):
+            forms = ['perply'] + (['uniform'] if (tpat == 'uni' and mpat not in ('mix', 'mixw')) else [])
             for oname, off in offsets(seed):
                 ts, ms = thickness(tpat, n), materials(mpat, n)
                 ref = rl.abd(stack, ts, ms, off)
